@@ -1511,7 +1511,11 @@ func (stmt *UpsertIntoStmt) execAt(ctx context.Context, tx *SQLTx, params map[st
 			return nil, ErrMaxKeyLengthExceeded
 		}
 
-		_, err = tx.get(ctx, mappedPKey)
+		pkValRef, err := tx.get(ctx, mappedPKey)
+		if err == nil && pkValRef.KVMetadata() != nil && pkValRef.KVMetadata().Deleted() {
+			// the row was deleted earlier in this same transaction
+			err = store.ErrKeyNotFound
+		}
 		if err != nil && !errors.Is(err, store.ErrKeyNotFound) {
 			return nil, err
 		}
